@@ -157,6 +157,21 @@ Theorem C01_calibrated_string_refused : forall a off cnt,
 Proof. exact calibrated_string_refused. Qed.
 Print Assumptions C01_calibrated_string_refused.
 
+(** typed container routes (Hydra / multi_array / NDArray): a route only builds the request; the shape
+    of a non-scalar container is its extents for every element type, and a whole-array set through a
+    route followed by a whole read returns the values with exactly the container's extent *)
+Theorem C01_route_shape_exact : forall r ext, r <> RScalar -> route_shape r ext = ext.
+Proof. exact route_shape_exact. Qed.
+Print Assumptions C01_route_shape_exact.
+
+Theorem C01_typed_whole_round_trip : forall r ext vals a a' o,
+  r <> RScalar -> wf a -> shape_ok ext ->
+  route_op r (a_shape a) (TSetAll ext vals) = Ok o ->
+  o = OWriteAll ext vals /\
+  (write_all false a ext vals = Ok (a', Ok tt) -> a_shape a' = ext /\ read_slab a' [] ext = Ok vals).
+Proof. exact typed_whole_round_trip. Qed.
+Print Assumptions C01_typed_whole_round_trip.
+
 (** * Non-vacuity and witnesses (all by computation) *)
 
 Definition ex_ops : list op :=
@@ -229,3 +244,9 @@ Example C01_ro_origin_refused :
   origin_parts (view (fst (step s (OOrigin (Some (ofZ 1)))))) = f64_parts (ofZ 2) /\
   f64_parts (ofZ 1) <> f64_parts (ofZ 2).
 Proof. vm_compute. repeat split. discriminate. Qed.
+
+(** a 1-D multi_array of 300 Int8 elements sets an extent of 300 (the pinned traits store 300 mod 256) *)
+Example C01_multi_array_extent_not_truncated :
+  route_op (RMulti 1) [3] (TSetAll [300] (repeat (VI 1) 300)) = Ok (OWriteAll [300] (repeat (VI 1) 300)) /\
+  a_shape (disk (fst (step (start TInt8 CNone [3]) (OWriteAll [300] (repeat (VI 1) 300))))) = [300].
+Proof. split; vm_compute; reflexivity. Qed.
